@@ -27,6 +27,7 @@ CONSTANTS NG,           \* glyphs 1..NG (0 = .notdef is never in a text)
           GAttr,        \* glyph -> value of the glyph attribute the constraints may test
           MaxRules, MaxPasses, MaxLen, MaxText,
           Rtl,          \* font and text direction (0 ltr, 1 rtl)
+          NFeat,        \* number of font features (0 = none); each takes values 0..2, default 0
           Ops,          \* item operations allowed: subset of {"keep","glyph","subs","copy","delete","insert"}
           Emit
 
@@ -39,9 +40,10 @@ Max(S) == CHOOSE x \in S : \A y \in S : y <= x
 (* Programs                                                                *)
 (***************************************************************************)
 \* item action: op, class operand, copy reference (relative, negative), optional attribute sets (-1 = none)
-NoItem == [op |-> "keep", cls |-> 0, ref |-> 0, adv |-> -1, user |-> -1, user2 |-> -1, shift |-> -1, att |-> -1, attref |-> -1]
-\* constraint: kind "none" | "gattr" | "user" on body item `item` (0-based) equal to `val`
-NoCon == [kind |-> "none", item |-> 0, val |-> 0]
+NoItem == [op |-> "keep", cls |-> 0, ref |-> 0, adv |-> -1, user |-> -1, user2 |-> -1, shift |-> -1, att |-> -1, attref |-> -1, sf |-> 0, sv |-> 0]
+\* constraint: kind "none" | "gattr" | "user" | "user2" on body item `item` (0-based) equal to `val`; kind "feat": feature f = val
+\* item action sf/sv: set feature sf (0 = none) to sv (SET_FEAT; the value is clamped to the feature's maximum 2)
+NoCon == [kind |-> "none", item |-> 0, val |-> 0, f |-> 0]
 
 VARIABLES prog,     \* sequence of passes: [kind, rules]; rule: [pre, ctx, items, con, ret]
           text,     \* sequence of glyph ids
@@ -50,16 +52,20 @@ VARIABLES prog,     \* sequence of passes: [kind, rules]; rule: [pre, ctx, items
           \* run state
           stream,   \* sequence of slot ids in stream order
           slot,     \* slot id -> [gid, adv, user, user2, shift, par, att, with]
-          nextid, pass, cur, fired, stuck
-vars == <<prog, text, phase, bpos, stream, slot, nextid, pass, cur, fired, stuck>>
+          nextid, pass, cur, fired, stuck,
+          feats,    \* feature values handed to gr_make_seg
+          cfeats    \* feature values of the segment while it runs (SET_FEAT changes them)
+vars == <<prog, text, phase, bpos, stream, slot, nextid, pass, cur, fired, stuck, feats, cfeats>>
 
 Init == /\ prog = << >> /\ text = << >> /\ phase = "build" /\ bpos = "pass"
         /\ stream = << >> /\ slot = << >> /\ nextid = 1 /\ pass = 1 /\ cur = 1 /\ fired = 0 /\ stuck = FALSE
+        /\ feats = [f \in 1..NFeat |-> 0] /\ cfeats = [f \in 1..NFeat |-> 0]
 
 UniformPre(P) == \A i \in 1..Len(P) : \A a, b \in 1..Len(P[i].rules) : P[i].rules[a].pre = P[i].rules[b].pre
 \* alternative start: a fixed, hand-structured program (a constant of the model), every text over the glyphs
 InitSeeded(P) == /\ prog \in P /\ text = << >> /\ phase = "text" /\ bpos = "pass"
                  /\ stream = << >> /\ slot = << >> /\ nextid = 1 /\ pass = 1 /\ cur = 1 /\ fired = 0 /\ stuck = FALSE
+        /\ feats = [f \in 1..NFeat |-> 0] /\ cfeats = [f \in 1..NFeat |-> 0]
 
 CurPass == prog[Len(prog)]
 CurRule == CurPass.rules[Len(CurPass.rules)]
@@ -70,7 +76,7 @@ NewPass(k) ==
   /\ phase = "build" /\ bpos = "pass" /\ Len(prog) < MaxPasses
   /\ (k = "sub" => \A i \in 1..Len(prog) : prog[i].kind = "sub")          \* substitution passes come first
   /\ prog' = Append(prog, [kind |-> k, rules |-> << >>])
-  /\ bpos' = "rule" /\ UNCHANGED <<text, phase, stream, slot, nextid, pass, cur, fired, stuck>>
+  /\ bpos' = "rule" /\ UNCHANGED <<text, phase, stream, slot, nextid, pass, cur, fired, stuck, feats, cfeats>>
 
 \* a rule's context: pre-context length and class sequence
 NewRule(p, ctx) ==
@@ -79,7 +85,7 @@ NewRule(p, ctx) ==
   \* rules of one pass may have different pre-context lengths: the state table then has one start state per
   \* number of available pre-context slots (m_startStates) and shorter rules are padded with a class of all glyphs
   /\ prog' = [prog EXCEPT ![Len(prog)].rules = Append(@, [pre |-> p, ctx |-> ctx, items |-> << >>, con |-> NoCon, ret |-> 0])]
-  /\ bpos' = "item" /\ UNCHANGED <<text, phase, stream, slot, nextid, pass, cur, fired, stuck>>
+  /\ bpos' = "item" /\ UNCHANGED <<text, phase, stream, slot, nextid, pass, cur, fired, stuck, feats, cfeats>>
 
 BodyLen(r) == Len(r.ctx) - r.pre
 
@@ -95,7 +101,8 @@ ItemChoices(kind, k) ==
               \cup (IF k > 1 THEN {[NoItem EXCEPT !.att = 30], [NoItem EXCEPT !.att = 0, !.shift = 15]} ELSE {})
               \cup (IF k > 2 THEN {[NoItem EXCEPT !.att = 20, !.attref = -2]} ELSE {})
               \cup (IF k > 3 THEN {[NoItem EXCEPT !.att = 10, !.attref = -3]} ELSE {})
-  IN  base \cup (IF kind = "sub" THEN subst ELSE posn)
+      setf == {[NoItem EXCEPT !.sf = f, !.sv = v] : f \in 1..NFeat, v \in {0, 1, 3}}
+  IN  base \cup setf \cup (IF kind = "sub" THEN subst ELSE posn)
 
 AddItem(it) ==
   /\ phase = "build" /\ bpos = "item"
@@ -109,7 +116,7 @@ AddItem(it) ==
   /\ (it.op = "copy") => LET p == CurRule.items[Len(CurRule.items)] IN p.adv < 0 /\ p.user < 0 /\ p.user2 < 0 /\ p.shift < 0
   /\ prog' = SetCurRule([CurRule EXCEPT !.items = Append(@, it)])
   /\ bpos' = IF Len(CurRule.items) + 1 = BodyLen(CurRule) THEN "fin" ELSE "item"
-  /\ UNCHANGED <<text, phase, stream, slot, nextid, pass, cur, fired, stuck>>
+  /\ UNCHANGED <<text, phase, stream, slot, nextid, pass, cur, fired, stuck, feats, cfeats>>
 
 \* constraint and cursor return; the cursor always ends after the position the rule fired at (progress)
 FinishRule(con, ret) ==
@@ -117,22 +124,26 @@ FinishRule(con, ret) ==
   /\ con.item < BodyLen(CurRule)
   /\ ret \in {0} \cup (IF BodyLen(CurRule) >= 2 /\ \A k \in 1..BodyLen(CurRule) : CurRule.items[k].op \notin {"delete", "insert"} THEN {-1} ELSE {})
   /\ prog' = SetCurRule([CurRule EXCEPT !.con = con, !.ret = ret])
-  /\ bpos' = "rule" /\ UNCHANGED <<text, phase, stream, slot, nextid, pass, cur, fired, stuck>>
+  /\ bpos' = "rule" /\ UNCHANGED <<text, phase, stream, slot, nextid, pass, cur, fired, stuck, feats, cfeats>>
 
 EndPass == /\ phase = "build" /\ bpos = "rule" /\ CurPass.rules # << >>
-           /\ bpos' = "pass" /\ UNCHANGED <<prog, text, phase, stream, slot, nextid, pass, cur, fired, stuck>>
+           /\ bpos' = "pass" /\ UNCHANGED <<prog, text, phase, stream, slot, nextid, pass, cur, fired, stuck, feats, cfeats>>
 EndProg == /\ phase = "build" /\ bpos = "pass" /\ prog # << >>
-           /\ phase' = "text" /\ UNCHANGED <<prog, text, bpos, stream, slot, nextid, pass, cur, fired, stuck>>
+           /\ phase' = "text" /\ UNCHANGED <<prog, text, bpos, stream, slot, nextid, pass, cur, fired, stuck, feats, cfeats>>
 
 AddGlyph(g) == /\ phase = "text" /\ Len(text) < MaxText /\ text' = Append(text, g)
-               /\ UNCHANGED <<prog, phase, bpos, stream, slot, nextid, pass, cur, fired, stuck>>
+               /\ UNCHANGED <<prog, phase, bpos, stream, slot, nextid, pass, cur, fired, stuck, feats, cfeats>>
+ChooseFeat(f, v) == /\ phase = "text" /\ text = << >> /\ f \in 1..NFeat /\ feats[f] = 0 /\ v # 0
+                    /\ feats' = [feats EXCEPT ![f] = v]
+                    /\ UNCHANGED <<prog, text, phase, bpos, stream, slot, nextid, pass, cur, fired, stuck, cfeats>>
 StartRun ==
   /\ phase = "text" /\ text # << >>
   /\ phase' = "run"
   /\ stream' = [i \in 1..Len(text) |-> i]
   /\ slot' = [i \in 1..Len(text) |-> [gid |-> text[i], adv |-> Adv[text[i]], user |-> 0, user2 |-> 0, shift |-> 0, par |-> 0, att |-> 0, with |-> 0]]
   /\ nextid' = Len(text) + 1 /\ pass' = 1 /\ cur' = 1 /\ fired' = 0
-  /\ UNCHANGED <<prog, text, bpos, stuck>>
+  /\ cfeats' = feats
+  /\ UNCHANGED <<prog, text, bpos, stuck, feats>>
 
 \* ---- run steps ----------------------------------------------------------------------------
 Gid(i) == slot[stream[i]].gid
@@ -148,6 +159,7 @@ ConHolds(r, i) ==
     [] r.con.kind = "gattr" -> GAttr[s.gid] = r.con.val
     [] r.con.kind = "user"  -> s.user = r.con.val
     [] r.con.kind = "user2" -> s.user2 = r.con.val
+    [] r.con.kind = "feat"  -> cfeats[r.con.f] = r.con.val
 
 \* precedence: longer sort key first, then earlier rule
 Better(p, a, b) == Len(RulesOf(p)[a].ctx) > Len(RulesOf(p)[b].ctx) \/ (Len(RulesOf(p)[a].ctx) = Len(RulesOf(p)[b].ctx) /\ a < b)
@@ -170,6 +182,8 @@ ApplyItems(r, k, st, start) ==
                          A(y, n) == IF y = 0 \/ n = 0 THEN {} ELSE {y} \cup A(st.slot[y].par, n - 1)
                      IN  A(x, Len(st.stream) + 1)
            canAtt == it.att >= 0 /\ tgt # id /\ tgt # s0.par /\ id \notin Anc(tgt)
+           \* SET_FEAT: Segment::setFeature clamps to the feature's maximum value
+           fs == IF it.sf > 0 THEN [st.feats EXCEPT ![it.sf] = IF it.sv > 2 THEN 2 ELSE it.sv] ELSE st.feats
            upd(s) == [s EXCEPT !.adv = IF it.adv >= 0 THEN it.adv ELSE @,
                                !.user = IF it.user >= 0 THEN it.user ELSE @,
                                !.user2 = IF it.user2 >= 0 THEN it.user2 ELSE @,
@@ -181,52 +195,53 @@ ApplyItems(r, k, st, start) ==
                                !.with = IF canAtt THEN (IF Rtl = 1 THEN s.adv ELSE 0) ELSE @]
        IN
        CASE it.op = "keep" ->
-              ApplyItems(r, k + 1, [st EXCEPT !.slot[id] = upd(s0), !.at = st.at + 1], start)
+              ApplyItems(r, k + 1, [st EXCEPT !.slot[id] = upd(s0), !.at = st.at + 1, !.feats = fs], start)
          [] it.op = "glyph" ->
-              ApplyItems(r, k + 1, [st EXCEPT !.slot[id] = upd([s0 EXCEPT !.gid = Classes[it.cls][1], !.adv = Adv[Classes[it.cls][1]]]), !.at = st.at + 1], start)
+              ApplyItems(r, k + 1, [st EXCEPT !.slot[id] = upd([s0 EXCEPT !.gid = Classes[it.cls][1], !.adv = Adv[Classes[it.cls][1]]]), !.at = st.at + 1, !.feats = fs], start)
          [] it.op = "subs" ->
               LET inc == r.ctx[r.pre + k]
                   ix == IndexIn(s0.gid, inc)
                   ng == IF ix <= Len(Classes[it.cls]) THEN Classes[it.cls][ix] ELSE 0
-              IN  ApplyItems(r, k + 1, [st EXCEPT !.slot[id] = upd([s0 EXCEPT !.gid = ng, !.adv = IF ng = 0 THEN 0 ELSE Adv[ng]]), !.at = st.at + 1], start)
+              IN  ApplyItems(r, k + 1, [st EXCEPT !.slot[id] = upd([s0 EXCEPT !.gid = ng, !.adv = IF ng = 0 THEN 0 ELSE Adv[ng]]), !.at = st.at + 1, !.feats = fs], start)
          [] it.op = "copy" ->
               \* right-hand-side references denote the INPUT slot (the engine works on a temporary copy of a slot
               \* that is changed and referenced later): take the source from the state before the rule fired
               LET src == slot[stream[start + (k - 1) + it.ref]] IN
-              ApplyItems(r, k + 1, [st EXCEPT !.slot[id] = upd([s0 EXCEPT !.gid = src.gid, !.adv = src.adv, !.user = src.user, !.user2 = src.user2, !.shift = src.shift]), !.at = st.at + 1], start)
+              ApplyItems(r, k + 1, [st EXCEPT !.slot[id] = upd([s0 EXCEPT !.gid = src.gid, !.adv = src.adv, !.user = src.user, !.user2 = src.user2, !.shift = src.shift]), !.at = st.at + 1, !.feats = fs], start)
          [] it.op = "delete" ->
-              ApplyItems(r, k + 1, [st EXCEPT !.stream = SubSeq(st.stream, 1, st.at - 1) \o SubSeq(st.stream, st.at + 1, Len(st.stream))], start)
+              ApplyItems(r, k + 1, [st EXCEPT !.stream = SubSeq(st.stream, 1, st.at - 1) \o SubSeq(st.stream, st.at + 1, Len(st.stream)), !.feats = fs], start)
          [] it.op = "insert" ->      \* a new slot before this item, then the item itself is kept
               LET nid == st.nextid
                   g == Classes[it.cls][1]
                   ns == [gid |-> g, adv |-> Adv[g], user |-> 0, user2 |-> 0, shift |-> 0, par |-> 0, att |-> 0, with |-> 0]
               IN  ApplyItems(r, k + 1, [stream |-> SubSeq(st.stream, 1, st.at - 1) \o <<nid>> \o SubSeq(st.stream, st.at, Len(st.stream)),
                                         slot |-> [j \in DOMAIN st.slot \cup {nid} |-> IF j = nid THEN ns ELSE IF j = id THEN upd(s0) ELSE st.slot[j]],
-                                        nextid |-> nid + 1, at |-> st.at + 2], start)
+                                        nextid |-> nid + 1, at |-> st.at + 2, feats |-> fs], start)
 
 StepRun ==
   /\ phase = "run" /\ pass <= Len(prog) /\ cur <= Len(stream)
   /\ LET w == Winner(pass, cur) IN
-     IF w = 0 THEN cur' = cur + 1 /\ UNCHANGED <<stream, slot, nextid, fired>>
+     IF w = 0 THEN cur' = cur + 1 /\ UNCHANGED <<stream, slot, nextid, fired, cfeats>>
      ELSE LET r == RulesOf(pass)[w]
-              st == ApplyItems(r, 1, [stream |-> stream, slot |-> slot, nextid |-> nextid, at |-> cur], cur)
+              st == ApplyItems(r, 1, [stream |-> stream, slot |-> slot, nextid |-> nextid, at |-> cur, feats |-> cfeats], cur)
           IN  /\ stream' = st.stream /\ slot' = st.slot /\ nextid' = st.nextid
-              /\ cur' = st.at + r.ret /\ fired' = fired + 1
-  /\ UNCHANGED <<prog, text, phase, bpos, pass, stuck>>
+              /\ cur' = st.at + r.ret /\ fired' = fired + 1 /\ cfeats' = st.feats
+  /\ UNCHANGED <<prog, text, phase, bpos, pass, stuck, feats>>
 NextPass ==
   /\ phase = "run" /\ pass <= Len(prog) /\ cur > Len(stream)
   /\ pass' = pass + 1 /\ cur' = 1
-  /\ UNCHANGED <<prog, text, phase, bpos, stream, slot, nextid, fired, stuck>>
+  /\ UNCHANGED <<prog, text, phase, bpos, stream, slot, nextid, fired, stuck, feats, cfeats>>
 Finish ==
   /\ phase = "run" /\ pass > Len(prog)
   /\ phase' = "done"
-  /\ UNCHANGED <<prog, text, bpos, stream, slot, nextid, pass, cur, fired, stuck>>
+  /\ UNCHANGED <<prog, text, bpos, stream, slot, nextid, pass, cur, fired, stuck, feats, cfeats>>
 Done == phase = "done" /\ UNCHANGED vars
 
 CtxChoices == UNION {[1..n -> 1..NC] : n \in 1..MaxLen}
-ConChoices == {NoCon} \cup {[kind |-> "gattr", item |-> j, val |-> v] : j \in 0..1, v \in {0, 1}}
-                      \cup {[kind |-> "user", item |-> j, val |-> v] : j \in 0..1, v \in {0, 7}}
-                      \cup {[kind |-> "user2", item |-> j, val |-> v] : j \in 0..1, v \in {0, 5}}
+ConChoices == {NoCon} \cup {[kind |-> "gattr", item |-> j, val |-> v, f |-> 0] : j \in 0..1, v \in {0, 1}}
+                      \cup {[kind |-> "user", item |-> j, val |-> v, f |-> 0] : j \in 0..1, v \in {0, 7}}
+                      \cup {[kind |-> "user2", item |-> j, val |-> v, f |-> 0] : j \in 0..1, v \in {0, 5}}
+                      \cup {[kind |-> "feat", item |-> 0, val |-> v, f |-> f] : f \in 1..NFeat, v \in {0, 1, 2}}
 
 Next == \/ \E k \in {"sub", "pos"} : NewPass(k)
         \/ \E p \in 0..1, ctx \in CtxChoices : NewRule(p, ctx)
@@ -234,6 +249,7 @@ Next == \/ \E k \in {"sub", "pos"} : NewPass(k)
         \/ \E con \in ConChoices, ret \in {0, -1} : FinishRule(con, ret)
         \/ EndPass \/ EndProg
         \/ \E g \in 1..NG : AddGlyph(g)
+        \/ \E f \in 1..NFeat, v \in {1, 2} : ChooseFeat(f, v)
         \/ StartRun \/ StepRun \/ NextPass \/ Finish
 Spec == Init /\ [][Next]_vars /\ WF_vars(StepRun \/ NextPass \/ Finish)
 
@@ -301,6 +317,6 @@ Out == [i \in 1..Len(stream) |->
           [gid |-> s.gid, adv |-> s.adv, user |-> s.user, user2 |-> s.user2, shift |-> s.shift,
            par |-> IF s.par = 0 THEN 0 ELSE CHOOSE j \in 1..Len(stream) : stream[j] = s.par,
            x |-> Positions.pos[stream[i]]]]
-CaseRecord == [prog |-> prog, text |-> text, rtl |-> Rtl, out |-> Out, advance |-> Positions.x, fired |-> fired]
+CaseRecord == [prog |-> prog, text |-> text, feats |-> feats, rtl |-> Rtl, out |-> Out, advance |-> Positions.x, fired |-> fired]
 EmitDone == (Emit /\ phase = "done") => CSVWrite("%1$s", <<ToJson(CaseRecord)>>, IOEnv.OUT)
 =============================================================================
